@@ -167,6 +167,8 @@ class StreamingHandler(AsyncCallbackHandler, AsyncIterator):
                         # We push that as well.
                         if len(self.completion) > len(prev_completion):
                             self.current_chunk = self.completion[len(prev_completion) :]
+                            # The new part is added again to the completion when processed.
+                            self.completion = prev_completion
                             await self.push_chunk(None)
 
                         # And we stop the streaming
@@ -216,10 +218,12 @@ class StreamingHandler(AsyncCallbackHandler, AsyncIterator):
                 self.current_chunk = self.current_chunk[len(self.prefix) :]
                 self.prefix = None
 
-                # If we're left with something, we "forward it".
+                # If we're left with something, we "forward it" through the
+                # suffix/stop logic, as it can already contain (part of) them.
                 if self.current_chunk:
-                    await self._process(self.current_chunk)
+                    remaining = self.current_chunk
                     self.current_chunk = ""
+                    await self.push_chunk(remaining)
         elif self.suffix or self.stop:
             # If we have a suffix, we always check that the total current chunk does not end
             # with the suffix.
